@@ -583,6 +583,7 @@ func expandParameterOrResponse(input interface{}, resolver *schemaLoader, basePa
 
 		if resolver.isCircular(&rebasedRef, basePath, parentRefs...) {
 			// this is a circular $ref: stop expansion
+			verifEv("cut", rebasedRef.String())
 			if !resolver.options.AbsoluteCircularRef {
 				sch.Ref = denormalizeRef(&rebasedRef, resolver.context.basePath, resolver.context.rootID)
 			} else {
